@@ -162,15 +162,162 @@ int vg_sprintf2(char *d, const char *fmt, const char *a, const char *b)
 #define sprintf(d, fmt, a, b) vg_sprintf2(d, fmt, a, b)
 #endif /* !VG_EXACT */
 
+/* ================================================================= stubs for other translation units */
+#include "lha_file_header.h"
+#include "lha_endian.h"
+#include "ext_header.h"
+#include "crc16.h"
+
+/* ASSUME: lha_decode_uint16(buf) reads buf[0..2) and returns their little-endian value; lha_decode_uint32
+   likewise for buf[0..4) (contracts of unit exthdr, contracts/lib/lha_endian.c.spec); reference bodies. */
+uint16_t lha_decode_uint16(uint8_t *buf)
+{
+	__CPROVER_assert(VG_IN_RAW(buf, 2), "C08 lha_decode_uint16: buf[0..2) lies inside raw_data_len");
+	return (uint16_t) (buf[0] | (buf[1] << 8));
+}
+uint32_t lha_decode_uint32(uint8_t *buf)
+{
+	__CPROVER_assert(VG_IN_RAW(buf, 4), "C08 lha_decode_uint32: buf[0..4) lies inside raw_data_len");
+	return (uint32_t) buf[0] | ((uint32_t) buf[1] << 8) | ((uint32_t) buf[2] << 16) | ((uint32_t) buf[3] << 24);
+}
+
+/* ASSUME: lha_crc16_buf(crc, buf, n) reads buf[0..n), replaces *crc by the CRC-16 of those bytes continued
+   from the old *crc and touches nothing else (unit crc16).  The stub records the call in ghosts and
+   returns an arbitrary value vg_crc_out: "the CRC of vg_crc_buf[0..vg_crc_len) from vg_crc_init". */
+void lha_crc16_buf(uint16_t *crc, uint8_t *buf, size_t buf_len)
+{
+	__CPROVER_assert((buf_len == 0 || __CPROVER_r_ok(buf, buf_len)) && VG_IN_RAW(buf, buf_len), "C08 lha_crc16_buf: buf[0..buf_len) readable, inside raw_data_len");
+	vg_crc_buf = buf; vg_crc_len = buf_len; vg_crc_init = *crc; vg_crc_calls = vg_crc_calls + 1;
+	vg_crc_out = nondet_ushort();
+	*crc = vg_crc_out;
+}
+
+/* ASSUME: lha_ext_header_decode(header, num, data, data_len) (unit exthdr, contracts/lib/ext_header.c.spec):
+   accesses only data[0..data_len) (it zeroes the two CRC bytes of a common header); may OR bits into
+   extra_flags and set common_crc, timestamp, unix_perms, unix_uid, unix_gid, os9_perms and the three Windows
+   times; may replace filename by a new heap string without '/' (the old one freed), path by a new heap
+   string, unix_username / unix_group by new heap strings; changes nothing else - in particular not raw_data,
+   raw_data_len, header_level, the lengths, method, crc, os_type, _refcount, symlink_target.
+   New strings are padded VG_PB blocks (the stub's malloc model); names longer than VG_PB - 2 are outside
+   the model. */
+static char *vg_new_string(void)
+{
+	char *n = (malloc)(VG_PB);
+	__CPROVER_assume(n != NULL);
+	__CPROVER_assume(VG_STR(n));
+	return n;
+}
+int lha_ext_header_decode(LHAFileHeader *header, uint8_t num, uint8_t *data, size_t data_len)
+{
+	__CPROVER_assert((data_len == 0 || __CPROVER_rw_ok(data, data_len)) && VG_IN_RAW(data, data_len),
+	                 "C08 lha_ext_header_decode: data[0..data_len) lies inside raw_data_len");
+	if (nondet_bool()) return 0;
+	header->extra_flags |= nondet_uint() & (LHA_FILE_UNIX_PERMS | LHA_FILE_UNIX_UID_GID | LHA_FILE_COMMON_CRC |
+	                                         LHA_FILE_WINDOWS_TIMESTAMPS | LHA_FILE_OS9_PERMS);
+	header->common_crc = nondet_ushort();
+	header->timestamp = nondet_uint();
+	header->unix_perms = nondet_uint(); header->unix_uid = nondet_uint(); header->unix_gid = nondet_uint();
+	header->os9_perms = nondet_uint();
+	header->win_creation_time = nondet_size_t(); header->win_modification_time = nondet_size_t();
+	header->win_access_time = nondet_size_t();
+	if (data_len >= 2 && nondet_bool()) { data[0] = 0; data[1] = 0; }
+#ifndef VG_EXT_NOSTR
+	if (nondet_bool()) {
+		char *n = vg_new_string();
+		size_t l = nondet_size_t();
+		__CPROVER_assume(VG_NAME_OK(n, l));
+		free(header->filename); header->filename = n; vg_flen = l;
+	}
+	if (nondet_bool()) {
+		char *n = vg_new_string();
+		size_t l = nondet_size_t();
+		__CPROVER_assume(VG_IS_LEN(n, l));
+		free(header->path); header->path = n; vg_plen = l;
+	}
+	if (nondet_bool()) { char *n = vg_new_string(); free(header->unix_username); header->unix_username = n; }
+	if (nondet_bool()) { char *n = vg_new_string(); free(header->unix_group); header->unix_group = n; }
+#endif
+	return 1;
+}
+
+/* ASSUME: strcmp / strncmp compare C strings lexicographically up to the first NUL (and at most n bytes)
+   (ISO C).  Loop-free stubs, exact for what this file compares: the 6-byte method field against 5-character
+   literals (strcmp), and prefixes of at most 5 bytes (strncmp); both facts are asserted. */
+#define VG_CMP_STEP(i) if ((unsigned char) a[i] != (unsigned char) b[i]) return (unsigned char) a[i] < (unsigned char) b[i] ? -1 : 1; if (a[i] == '\0') return 0;
+int strcmp(const char *a, const char *b)
+{
+	__CPROVER_assert(__CPROVER_r_ok(a, 6) && a[5] == '\0' && __CPROVER_r_ok(b, 6) && b[5] == '\0', "strcmp: both arguments terminated within 6 bytes");
+	VG_CMP_STEP(0) VG_CMP_STEP(1) VG_CMP_STEP(2) VG_CMP_STEP(3) VG_CMP_STEP(4)
+	return 0;
+}
+#define VG_NCMP_STEP(i) if (n <= (i)) return 0; VG_CMP_STEP(i)
+int strncmp(const char *a, const char *b, size_t n)
+{
+	__CPROVER_assert(n <= 5 && __CPROVER_r_ok(a, 6) && __CPROVER_r_ok(b, n + 1), "strncmp: at most 5 bytes of the method field against a literal");
+	VG_NCMP_STEP(0) VG_NCMP_STEP(1) VG_NCMP_STEP(2) VG_NCMP_STEP(3) VG_NCMP_STEP(4)
+	return 0;
+}
+
+/* ASSUME: realloc(p, n) returns NULL and leaves the block alone, or releases p and returns a block of n
+   bytes whose leading min(old size, n) bytes are those of p (ISO C).  The stub always moves the block (the
+   harshest case for stale pointers) and scrambles the old one.  It carries the C13 obligation that one step grows a header block by
+   at most LEVEL_3_MAX_HEADER_LEN (asserted for EVERY request), and then follows only requests that fit the
+   physical model block: headers of more than VG_RAW_MAX raw bytes are not explored past this point. */
+void *realloc(void *p, size_t n)
+{
+	struct vg_blk_t *o = (struct vg_blk_t *) p, *q;
+	__CPROVER_assert(p != NULL && VG_OFF(p) == 0 && VG_IN_BLOCK(p) && __CPROVER_r_ok(p, VG_BLK_SIZE),
+	                 "realloc: argument is a header block");
+	__CPROVER_assert(n >= sizeof(LHAFileHeader) + vg_cap && n - sizeof(LHAFileHeader) - vg_cap <= VG_GROW_MAX,
+	                 "C13 realloc: a header block grows by at most LEVEL_3_MAX_HEADER_LEN per step");
+	if (nondet_bool()) return NULL;
+	__CPROVER_assume(n <= VG_BLK_SIZE);
+	q = (malloc)(VG_BLK_SIZE);
+	__CPROVER_assume(q != NULL);
+	*q = *o;
+	/* the old block is gone: its contents become arbitrary (a stale read would break the functional
+	   postconditions).  It is not handed to free(): CBMC 6.11's __CPROVER_was_freed cannot be used in the
+	   contracts of the callers (measured), so stale WRITES to the old block are not detected here. */
+	__CPROVER_havoc_object(p);
+	vg_blk = (LHAFileHeader *) q;
+	return q;
+}
+
+/* ASSUME: lha_input_stream_read(stream, buf, n) either returns 1 after storing exactly n arbitrary bytes at
+   buf[0..n), or returns 0 (then buf[0..n) may have been overwritten in part); it touches nothing else
+   (unit istream).  buf always lies in a header block here (asserted, with the logical bounds). */
+int lha_input_stream_read(LHAInputStream *stream, void *buf, size_t buf_len)
+{
+	struct vg_blk_t *blk = (struct vg_blk_t *) vg_blk, t, nd;       /* nd: uninitialised = arbitrary bytes */
+	size_t lo = VG_OFF(buf), hi = lo + buf_len;
+	__CPROVER_assert(blk != NULL && VG_OFF(blk) == 0 && __CPROVER_same_object(buf, blk) && VG_IN_BLOCK(buf) &&
+	                 buf_len <= VG_RAW_MAX && __CPROVER_w_ok(buf, buf_len) && VG_IN_RAW(buf, buf_len),
+	                 "C08 lha_input_stream_read: buf[0..buf_len) lies inside the raw bytes of the block vg_blk");
+	t = *blk;
+	/* loop-free (DFCC rejects assignments to locals of a stub that contains a loop): 20 x 16 = VG_RAW_MAX bytes */
+#define VG_RD1(i) if ((i) + sizeof(LHAFileHeader) >= lo && (i) + sizeof(LHAFileHeader) < hi) t.raw[i] = nd.raw[i];
+#define VG_RD4(i) VG_RD1(i) VG_RD1((i) + 1) VG_RD1((i) + 2) VG_RD1((i) + 3)
+#define VG_RD16(i) VG_RD4(i) VG_RD4((i) + 4) VG_RD4((i) + 8) VG_RD4((i) + 12)
+#define VG_RD80(i) VG_RD16(i) VG_RD16((i) + 16) VG_RD16((i) + 32) VG_RD16((i) + 48) VG_RD16((i) + 64)
+#if VG_RAW_MAX != 320
+#error "lha_input_stream_read stub is unrolled for VG_RAW_MAX == 320"
+#endif
+	VG_RD80(0) VG_RD80(80) VG_RD80(160) VG_RD80(240)
+	*blk = t;
+	return nondet_bool() ? 1 : 0;
+}
+
 /* ASSUME: mktime returns an arbitrary time_t and may normalise the fields of *tm (ISO C); the broken-down
    time it was handed is recorded in the ghost vg_tm for the C05 contract of decode_ftime. */
 struct tm vg_tm;
 int vg_mktime_calls;
+time_t vg_mktime_ret;
 time_t mktime(struct tm *tm)
 {
 	vg_tm = *tm;
 	vg_mktime_calls = vg_mktime_calls + 1;
-	return (time_t) nondet_size_t();
+	vg_mktime_ret = (time_t) nondet_size_t();
+	return vg_mktime_ret;
 }
 
 #include "lib/lha_file_header.c"
@@ -201,6 +348,10 @@ static void vg_havoc(void)
 	vg_wend = nondet_size_t();
 	vg_K = nondet_size_t();
 	__CPROVER_assume(vg_K < VG_PB);
+	vg_cap = nondet_size_t(); vg_R = nondet_size_t(); __CPROVER_assume(vg_R < VG_RAW_MAX); vg_blk = NULL; vg_moves = nondet_size_t(); __CPROVER_assume(vg_moves < 1000); vg_ext_total = nondet_size_t();
+	vg_sum_ptr = NULL; vg_sum_len = nondet_size_t(); vg_sum8 = nondet_uint();
+	vg_crc_buf = NULL; vg_crc_len = nondet_size_t(); vg_crc_init = nondet_ushort(); vg_crc_out = nondet_ushort(); vg_crc_calls = 0;
+	vg_mktime_calls = 0;
 }
 void h_split_header_filename(void) { LHAFileHeader *h; vg_havoc(); split_header_filename(h); VG_CANARY("split_header_filename"); }
 void h_full_path(void) { LHAFileHeader *h; vg_havoc(); lha_file_header_full_path(h); VG_CANARY("lha_file_header_full_path"); }
@@ -216,3 +367,69 @@ void h_process_level0_path(void)
 	VG_CANARY("process_level0_path");
 }
 void h_fix_msdos_allcaps(void) { LHAFileHeader *h; vg_havoc(); fix_msdos_allcaps(h); VG_CANARY("fix_msdos_allcaps"); }
+
+/* ================================================================= leaf functions of the block parser */
+void h_check_l0_checksum(void) { uint8_t *p; size_t n, c; vg_havoc(); check_l0_checksum(p, n, c); VG_CANARY("check_l0_checksum"); }
+/* meaning of the ghost vg_sum8: the real loop, fully unwound for every length the one-byte length field
+   allows, against the sum of the bytes as a mathematical integer */
+void h_check_l0_checksum_sum(void)
+{
+	uint8_t buf[257];
+	size_t n = nondet_size_t(), c = nondet_size_t(), k;
+	unsigned long ref = 0;
+	int r;
+	vg_havoc();
+	__CPROVER_assume(n <= 257);
+	r = check_l0_checksum(buf, n, c);
+	for (k = 0; k < 257; k++) if (k < n) ref += buf[k];
+	__CPROVER_assert(vg_sum8 == ref % 256, "C12 check_l0_checksum: vg_sum8 is the byte sum modulo 256");
+	__CPROVER_assert((r != 0) == (ref % 256 == c), "C12 check_l0_checksum: non-zero exactly when the byte sum modulo 256 equals the checksum");
+	VG_CANARY("check_l0_checksum_sum");
+}
+void h_check_common_crc(void) { LHAFileHeader *h; vg_havoc(); check_common_crc(h); VG_CANARY("check_common_crc"); }
+void h_decode_ftime(void) { uint8_t *b; vg_havoc(); decode_ftime(b); VG_CANARY("decode_ftime"); }
+void h_os9_to_unix_permissions(void) { LHAFileHeader *h; vg_havoc(); os9_to_unix_permissions(h); VG_CANARY("os9_to_unix_permissions"); }
+void h_extend_raw_data(void) { LHAFileHeader **h; LHAInputStream *st; size_t n; vg_havoc(); extend_raw_data(h, st, n); VG_CANARY("extend_raw_data"); }
+void h_decode_extended_headers(void) { LHAFileHeader **h; unsigned off; vg_havoc(); decode_extended_headers(h, off); VG_CANARY("decode_extended_headers"); }
+/* bounded: string hand-over through the extended-header loop, loop unwound (at most 1 extended header) */
+void h_decode_extended_headers_b(void)
+{
+	LHAFileHeader **h; unsigned off;
+	vg_havoc();
+	__CPROVER_assume(vg_cap <= 31 && off >= 24);
+	decode_extended_headers(h, off);
+	VG_CANARY("decode_extended_headers_b");
+}
+void h_read_next_ext_header(void) { LHAFileHeader **h; LHAInputStream *st; uint8_t **e; size_t *l; vg_havoc(); read_next_ext_header(h, st, e, l); VG_CANARY("read_next_ext_header"); }
+/* bounded: the loop of read_l1_extended_headers unwound (at most 2 extended headers are read) */
+void h_read_l1_extended_headers_b(void)
+{
+	LHAFileHeader **h; LHAInputStream *st; int r;
+	vg_havoc();
+	__CPROVER_assume(vg_cap >= VG_RAW_MAX - 7);   /* room for at most 2 extended headers (>= 3 bytes each) */
+	r = read_l1_extended_headers(h, st);
+	VG_CANARY("read_l1_extended_headers_b");
+}
+void h_decode_level0_header(void) { LHAFileHeader **h; LHAInputStream *st; vg_havoc(); decode_level0_header(h, st); VG_CANARY("decode_level0_header"); }
+void h_decode_level1_header(void) { LHAFileHeader **h; LHAInputStream *st; vg_havoc(); decode_level1_header(h, st); VG_CANARY("decode_level1_header"); }
+void h_decode_level2_header(void) { LHAFileHeader **h; LHAInputStream *st; vg_havoc(); decode_level2_header(h, st); VG_CANARY("decode_level2_header"); }
+void h_decode_level3_header(void) { LHAFileHeader **h; LHAInputStream *st; vg_havoc(); decode_level3_header(h, st); VG_CANARY("decode_level3_header"); }
+void h_process_level0_extended_area(void)
+{
+	LHAFileHeader *h; size_t n = nondet_size_t(); uint8_t *d;
+	vg_havoc();
+	__CPROVER_assume(1 <= n && n <= 233);    /* header_len - 22 - path_len with a one-byte header_len */
+	d = (malloc)(n);                          /* the area: an object of exactly data_len bytes */
+	__CPROVER_assume(d != NULL);
+	process_level0_extended_area(h, d, n);
+	VG_CANARY("process_level0_extended_area");
+}
+void h_file_header_free(void) { LHAFileHeader *h; vg_havoc(); lha_file_header_free(h); VG_CANARY("lha_file_header_free"); }
+void h_file_header_add_ref(void) { LHAFileHeader *h; vg_havoc(); lha_file_header_add_ref(h); VG_CANARY("lha_file_header_add_ref"); }
+void h_consts(void)
+{
+	__CPROVER_assert(VG_GROW_MAX == LEVEL_3_MAX_HEADER_LEN, "harness constant equals LEVEL_3_MAX_HEADER_LEN");
+	__CPROVER_assert(COMMON_HEADER_LEN == 22 && LEVEL_0_MIN_HEADER_LEN == 22 && LEVEL_1_MIN_HEADER_LEN == 25 &&
+	                 LEVEL_2_HEADER_LEN == 26 && LEVEL_3_HEADER_LEN == 32, "format constants of the property statement");
+	VG_CANARY("consts");
+}
